@@ -1462,7 +1462,14 @@ impl DbInner {
 		while self.process_commits(db)? {}
 		while self.enact_logs(false)? {}
 		self.flush_logs(0)?;
-		while self.enact_logs(false)? {}
+		// `enact_logs` reports the end of every log file, not the end of the work: go on until no
+		// flushed file is left to read (the commit worker may have been several files behind).
+		loop {
+			while self.enact_logs(false)? {}
+			if !self.log.has_log_files_to_read() {
+				break
+			}
+		}
 		self.clean_all_logs()?;
 		self.log.kill_logs()?;
 		if self.options.stats {
